@@ -199,6 +199,66 @@ theorem unknown_token_kept (P : Prog) (pre post : List Str) (t : Str) (p : Pair)
   obtain ⟨m3, h3⟩ := finish_rem_prefix' ext (post.foldl (step ext mode) (step ext mode (run ext mode P pre) t))
   exact ⟨m2 ++ m3, by rw [h3, h2, h1]; simp⟩
 
+/-- one step at a head position with a plain word: the word is appended, verbatim, and nothing else of the
+remaining list changes (with require-order the parser also stops) -/
+theorem step_text_kept (s : PState) (t : Str) (he : s.err = none) (hc : s.ctx = .idle)
+    (hd : t ≠ dashdash) (hno : (isOption t mode).2 = false)
+    (hcmd : lookup t (s.P.node s.cur).cmds = none) :
+    (step ext mode s t).rem = s.rem ++ [t] ∧ (step ext mode s t).P = s.P ∧ (step ext mode s t).cur = s.cur ∧
+      (step ext mode s t).err = none := by
+  have hd' : (t == dashdash) = false := by simpa using hd
+  have : isOption t mode = ((isOption t mode).1, false) := by rw [← hno]
+  simp only [step, stepG, he, hc, head, hd']
+  rw [this]
+  cases hro : (s.P.node s.cur).requireOrder <;> simp [hcmd, PState.addText, he]
+
+/-- **Whole command line: a positional word is never lost.**  A token given where an option may start that is
+not `--`, not option-looking in the mode and not the name of a sub-command of the level reached is in the
+remaining list of the finished parse, verbatim, right after everything kept before it — whatever comes before
+and after it, in every mode, with or without require-order. -/
+theorem positional_token_kept (P : Prog) (pre post : List Str) (t : Str)
+    (he : (run ext mode P pre).err = none) (hc : (run ext mode P pre).ctx = .idle)
+    (hd : t ≠ dashdash) (hno : (isOption t mode).2 = false)
+    (hcmd : lookup t ((run ext mode P pre).P.node (run ext mode P pre).cur).cmds = none) :
+    ∃ more, (parseArgs ext mode P (pre ++ t :: post)).rem = (run ext mode P pre).rem ++ t :: more := by
+  unfold parseArgs
+  rw [run_append]
+  simp only [List.foldl_cons]
+  have h1 := (step_text_kept ext mode _ t he hc hd hno hcmd).1
+  obtain ⟨m2, h2⟩ := foldl_rem_prefix' ext mode post (step ext mode (run ext mode P pre) t)
+  obtain ⟨m3, h3⟩ := finish_rem_prefix' ext (post.foldl (step ext mode) (step ext mode (run ext mode P pre) t))
+  exact ⟨m2 ++ m3, by rw [h3, h2, h1]; simp⟩
+
+/-- a sub-command name at a head position is consumed: it does not enter the remaining list -/
+theorem command_word_consumed (s : PState) (t : Str) (c : Nat) (he : s.err = none) (hc : s.ctx = .idle)
+    (hd : t ≠ dashdash) (hno : (isOption t mode).2 = false)
+    (hcmd : lookup t (s.P.node s.cur).cmds = some c) :
+    (step ext mode s t).rem = s.rem ∧ (step ext mode s t).cur = c := by
+  have hd' : (t == dashdash) = false := by simpa using hd
+  have : isOption t mode = ((isOption t mode).1, false) := by rw [← hno]
+  simp only [step, stepG, he, hc, head, hd']
+  rw [this]
+  simp [hcmd]
+
+/-- a `--` reached at a head position is dropped -/
+theorem dashdash_dropped (s : PState) (he : s.err = none) (hc : s.ctx = .idle) :
+    (step ext mode s dashdash).rem = s.rem := by
+  simp [step, stepG, he, hc, head]
+
+/-- a token taken as the value of the open occurrence is consumed: the remaining list keeps only what the
+pairs still pending of the *previous* token add (nothing when there are none) -/
+theorem value_token_consumed (s : PState) (o i : Nat) (t : Str) (s1 : PState) (he : s.err = none)
+    (hc : s.ctx = .collecting o i) (hp : s.pending = []) (hoff : offer ext mode s o i t = (s1, true)) :
+    (step ext mode s t).rem = s.rem := by
+  have hf := offer_frame ext mode s o i t
+  simp only [hoff] at hf
+  have hp1 : s1.pending = [] := by rw [hf.2.2.2.2.1]; exact hp
+  simp only [step, stepG, he, hc, hoff, Option.isSome_none, Bool.false_eq_true, ↓reduceIte]
+  unfold afterConsume
+  split
+  · exact hf.1
+  · rw [hp1]; split <;> simp_all [drain]
+
 /-! Non-vacuity and the formerly failing inputs (now theorems about concrete runs). -/
 
 /-- Bundling + Pass, `x -vQW y` with only `v` known: the token is passed through exactly once -/
